@@ -234,8 +234,12 @@ func TestC18_LicenceEscrowAndVesting(t *testing.T) {
 			grain := int64(rapid.IntRange(1, 50).Draw(t, "grain"))
 			contract := c18Sale
 			wrongContract := rapid.IntRange(0, 4).Draw(t, "wrongContract") == 0
+			if !cfg["contract"] && rapid.Bool().Draw(t, "noContractAnywhere") {
+				wrongContract = true
+			}
 			if wrongContract {
-				contract = "0x00000000000000000000000000000000000000f8"
+				// another contract, or no originating contract at all (the field is not validated statelessly)
+				contract = rapid.SampledFrom([]string{"0x00000000000000000000000000000000000000f8", "", ""}).Draw(t, "otherContract")
 			}
 			skyNonce++
 			a := cl.Addr.String()
